@@ -6,14 +6,39 @@ VERIF = os.path.dirname(HERE)
 ALL = ['C%02d' % i for i in range(1, 20)]
 
 CHECKS = {
+ 'C02': dict(
+   technique='Lean 4 proof (induction over the chunk-oriented parser loop: feedLoop (a++b) = feedLoop a then b) + differential correspondence + metamorphic real-vs-real oracle',
+   text='Kernel-checked theorem that the model of Parser.feed\'s loop (bite = data[pos:pos+remaining], incremental UTF-8 validation threaded, buffer extended, grammar resumed when complete, whole lazy pipeline incl. the application\'s reaction run after every parser output) computes the same final system state - events, application reactions, bytes written, errors, decision to stop - for every two segmentations of the same bytes, from every state (frames phase). The model is tied to the code by running real lomond and the model on the same streams under whole / bytewise / random / ALL 2^(n-1) cut sets, and the real code is compared with itself across segmentations (model-free).',
+   note='Proved for the frames phase (feedLoop) from any state; the header phase (read_until) and the housekeeping between two reads (_regular at a frozen clock) are covered by the correspondence and the metamorphic oracle only. Trusted: Lean kernel (propext, Classical.choice, Quot.sound), hand-written core model validated differentially, simulated socket/selector/clock.',
+   ref='6 C02'),
  'C05': dict(
    technique='Lean 4 proof (DFA table regenerated from source = RFC 3629 recogniser, by induction over all byte strings) + differential correspondence',
-   text='Kernel-checked theorems over the UTF-8 DFA table regenerated from lomond/utf8validator.py on every run: the DFA accepts exactly RFC 3629 well-formed strings, rejects exactly when no well-formed extension exists (fail-fast is exact), chunked validation equals one-shot validation, and the strict decoder is the exact inverse of the shortest-form encoder. Message-level verdict and fail-fast are tied to the code by running the real receive path and the hand-written core model on the same streams (every fragmentation / read split generated), with an independent RFC 3629 oracle judging the real output.',
+   text='Kernel-checked theorems over the UTF-8 DFA table regenerated from lomond/utf8validator.py on every run: the DFA accepts exactly RFC 3629 well-formed strings, rejects exactly when no well-formed extension exists (fail-fast is exact), chunked validation equals one-shot validation, and the strict decoder is the exact inverse of the shortest-form encoder. Message-level verdict and fail-fast are tied to the code by running the real receive path and the hand-written core model on the same streams (every fragmentation / read split generated, control frames between fragments, extension negotiated), with an independent RFC 3629 oracle judging the real output.',
    note='Trusted: Lean kernel (axioms propext, Quot.sound at most), harness/translate.py, the correspondence harness and its generators, CPython codec as second oracle. The message-level path (Model/Core.lean) is a hand-written model validated differentially, not verified; wsaccel validator not covered.',
    ref='6 C05'),
+ 'C13': dict(
+   technique='Lean 4 proof (post-condition of run() for every configuration, environment script and application, by composition of per-function state relations) + differential correspondence',
+   text='Kernel-checked theorem abandon_releases: in the model of session.run() with all its generators, try/except/finally clauses and the GeneratorExit raised at whichever yield the consumer stops at, the connection always ends with socket and selector closed - for every configuration, every server behaviour and fault, every application reaction including abandoning at any event by any mechanism. A second theorem exhibits the leak of the pinned commit (abandon at Connected). The model is tied to the code by abandoning the real generator at every event index of many scenarios by close(), break+drop, exception in the handler and exception leaving a with-block, and comparing trace and final socket/selector state with the model; an independent oracle checks the simulated socket and selector were closed.',
+   note='When CPython finalises a dropped generator (reference cycles, tracebacks) is runtime behaviour outside the model; the harness forces it with close() / gc.collect(). Trusted: Lean kernel, core model validated differentially, simulated world.',
+   ref='6 C13'),
+ 'C16': dict(
+   technique='Lean 4 proof (induction over the list of reconnection rounds; delays over exact rationals) + differential correspondence',
+   text='14 kernel-checked theorems about a line-by-line model of persist(): every BackOff delay lies in [min_wait, max_wait], equals min + u*min(max-min, 2^k) with k the number of trailing attempts without Ready, events of every attempt pass through unchanged and in order followed by exactly one BackOff, the generator ends iff exit_event.wait returned true and right after that BackOff, never by itself, and connect() receives poll/ping_rate/ping_timeout as given (generated fact). Tied to the code by running the real persist() with scripted random() draws (dyadic, exact float arithmetic), a scripted exit event, scripted websockets and the real WebSocket on the simulated world.',
+   note='Float rounding for non-dyadic parameters, the real threading.Event and real sleeping are outside the model. Trusted: Lean kernel, translator (persist->connect keyword facts), correspondence harness.',
+   ref='6 C16'),
+ 'C18': dict(
+   technique='Lean 4 proof (invariant over loop cycles of a transport/selector model, safety and liveness) + differential correspondence + real loopback TCP/TLS runs',
+   text='9 kernel-checked theorems about a model of SelectorBase.wait + _recv + the receive loop over a plain and a TLS-like transport with timestamped arrivals: a wait never consumes virtual time while bytes are buffered in the kernel or decrypted-but-unread in the TLS layer, the chunks fed are a prefix of the arrivals in order (each <= BUFFER_SIZE, generated from source), every byte is fed at the tick it arrived and all bytes are eventually fed; and the variant without the pending() short-cut is proved to stall. Tied to the code by running the real SelectorBase.wait and the real session loop on simulated plain/TLS-like transports (bursts around 16 KiB and 64 KiB, hundreds of frames per record) and comparing the transport log with the model; real loopback TCP and TLS echo runs in the thorough tier.',
+   note='PARTIAL: poll(2) level-triggering, recv_into semantics and OpenSSL record/pending() behaviour are modelled, validated only by the loopback runs; KQueueSelector/SelectSelector unreachable on this platform. Trusted: Lean kernel, transport model, correspondence harness.',
+   ref='6 C18'),
+ 'C19': dict(
+   technique='Lean 4 proof (I/O-log model of _connect/_connect_proxy/ProxyParser; all read scripts and socket outcomes) + differential correspondence',
+   text='18 kernel-checked theorems about a model of proxy selection, the CONNECT request, the blocking reply loop over the generic parser (read_until with the generated 16 KiB bound) and the start of run(): every write other than the CONNECT request - in particular every byte of the WebSocket upgrade request, and the TLS wrap for wss - happens only after the reads so far contain a complete reply with status 200; any other status, an unterminated, oversized or empty reply or a socket error gives ConnectFail with nothing but the CONNECT request written; the CONNECT line names exactly the target host:port; proxy choice by scheme; Connected reports the proxy; independence of how the reply is segmented. Tied to the code by driving the real run() up to ConnectFail/Connected on a scripted proxy socket and comparing the ordered I/O log with the model.',
+   note='urlparse is modelled for printable-ASCII URLs without IPv6 literals; _connect_sock and _wrap_socket are stubbed in the correspondence. Trusted: Lean kernel, translator (proxy separator / max_bytes), correspondence harness.',
+   ref='6 C19'),
 }
 
-NOT_YET = 'check not built yet in this round (planned, see DESIGN.md section 6)'
+NOT_YET = 'not claimed yet: the correspondence+oracle check exists (./check Cxx) but its theorems are still being proved in this round (see DESIGN.md section 6)'
 
 
 def main():
